@@ -74,13 +74,13 @@ def run(ctx):
     # (build profile, optimisation level, cases, seed): quick = one run; thorough = dev + release (overflow checks and debug
     # assertions on / off), every optimisation level, three more seeds
     if ctx.tier == "quick":
-        runs = [("dev", 1, n_cases, ctx.seed)]
+        # (levels 2 and 3 through the host API run_with_vm_and_opt: a session unit is optimised by Optimizer::for_session_unit at
+        #  every level; the REPL command itself uses level 1)
+        runs = [("dev", 1, n_cases, ctx.seed), ("dev", 2, n_cases // 3, ctx.seed + 11), ("dev", 3, n_cases // 3, ctx.seed + 12)]
     else:
-        # A REPL session is compiled at OptimizationLevel::Basic (cli/src/cli/mod.rs hard-codes it; run_with_vm: "uses Basic opt
-        # to keep top-level vars for subsequent inputs") or below.  Above Basic every input is optimised as a whole program
-        # (a `let mut g = 5` that its own input does not read is a dead store there), so levels 2 and 3 are not sessions.
         runs = [("dev", 1, n_cases, ctx.seed), ("release", 1, n_cases, ctx.seed), ("dev", 0, n_cases // 2, ctx.seed + 101),
-                ("release", 0, n_cases // 2, ctx.seed + 202), ("dev", 1, n_cases // 2, ctx.seed + 303), ("release", 1, n_cases // 2, ctx.seed + 404)]
+                ("release", 0, n_cases // 4, ctx.seed + 202), ("dev", 2, n_cases // 2, ctx.seed + 303), ("release", 2, n_cases // 4, ctx.seed + 404),
+                ("dev", 3, n_cases // 2, ctx.seed + 505), ("release", 3, n_cases // 4, ctx.seed + 606)]
     total, nsteps = 0, 0
     s_total, s_untranslated = 0, {}
     model_classes, lengths = {}, {}
